@@ -785,8 +785,10 @@ def r04h(model, ctx):
     grp = [c for c in ast.walk(fh) if isinstance(c, ast.Call) and dotted(c.func) in ("groupby", "itertools.groupby")]
     if len(loops) == 2:
         # index scan: a leading run of assignments, then (wrapped runs of assignments | other statements)
+        # ... and whether a later assignment is wrapped depends on nothing but its being an assignment
         shape = "isinstance(contents[index], Assignment)" in unparse(loops[0].test) and \
-            any(isinstance(x, ast.If) and "isinstance(contents[index], Assignment)" in unparse(x.test) for x in loops[1].body)
+            any(isinstance(x, ast.If) and unparse(x.test) == "isinstance(contents[index], Assignment)" for x in loops[1].body) and \
+            unparse(loops[1].test) == "index < len(contents)"
     elif len(grp) == 1:
         # runs by groupby(contents, key=is-assignment): a run of assignments that is not the first run is wrapped
         key = [k.value for k in grp[0].keywords if k.arg == "key"]
